@@ -19,6 +19,7 @@ import BlockCiphers.Models.Des
 import BlockCiphers.Models.Cast6
 import BlockCiphers.Models.Serpent
 import BlockCiphers.Models.Gift
+import BlockCiphers.Models.Kuznyechik
 /-
 All cipher models known to the driver.  One `Models/<Cipher>.lean` per crate contributes `models`
 (generic registry entries) and `specials` (operation lines that are specific to the crate).
@@ -28,12 +29,12 @@ namespace BC
 def allCiphers : List CipherModel :=
   Models.Xtea.models ++ Models.Rc5.models ++ Models.Speck.models ++
   Models.Serpent.models ++ Models.Cast6.models ++ Models.Des.models ++ Models.Threefish.models ++ Models.Rc2.models ++ Models.Blowfish.models ++ Models.Cast5.models ++
-  Models.Camellia.models ++ Models.Aria.models ++ Models.Sm4.models ++ Models.Magma.models ++ Models.Belt.models ++ Models.Twofish.models ++ Models.Idea.models ++ Models.Aes.models ++ Models.Gift.models
+  Models.Camellia.models ++ Models.Aria.models ++ Models.Sm4.models ++ Models.Magma.models ++ Models.Belt.models ++ Models.Twofish.models ++ Models.Idea.models ++ Models.Aes.models ++ Models.Gift.models ++ Models.Kuznyechik.models
 
 def allSpecials : List Special :=
   Models.Xtea.specials ++ Models.Rc5.specials ++ Models.Speck.specials ++
   Models.Serpent.specials ++ Models.Cast6.specials ++ Models.Des.specials ++ Models.Threefish.specials ++ Models.Rc2.specials ++ Models.Blowfish.specials ++ Models.Cast5.specials ++
-  Models.Camellia.specials ++ Models.Aria.specials ++ Models.Sm4.specials ++ Models.Magma.specials ++ Models.Belt.specials ++ Models.Twofish.specials ++ Models.Idea.specials ++ Models.Aes.specials ++ Models.AesFixslice.specials ++ Models.Gift.specials
+  Models.Camellia.specials ++ Models.Aria.specials ++ Models.Sm4.specials ++ Models.Magma.specials ++ Models.Belt.specials ++ Models.Twofish.specials ++ Models.Idea.specials ++ Models.Aes.specials ++ Models.AesFixslice.specials ++ Models.Gift.specials ++ Models.Kuznyechik.specials
 
 def findCipher (n : String) : Option CipherModel := allCiphers.find? (fun c => c.name == n)
 def findSpecial (n : String) : Option (List String → String) :=
